@@ -252,21 +252,24 @@ def endVert (h v : Seg) : Bool :=
     end (`inf` = the sentinel) -/
 def ensureFin (inf : Rat) (vs : List LV) (t : Rat) : List LV := if t == inf then vs else ensure vs t
 
-/-- the vertices of `h` plus the `beginVertInf/finishVertInf` of vertical lines starting exactly at `h`'s
-    begin (`insertBreakpointsBegin`) -/
+/-- the vertices of `h` plus the `beginVertInf/finishVertInf` of the vertical lines that pass exactly through
+    `h`'s begin or finish and have their own end vertex there (`insertBreakpointsBegin`,
+    `insertBreakpointsFinish`).  Repaired order of /repo (fix "crossing orthogonal visibility lines share one
+    vertex where a horizontal line finishes on a vertical line"): at the finish, too, that vertex is committed
+    BEFORE the horizontal line collects its break points, so it is a break point of both lines.  (As found it
+    reached only the vertical line: `hBaseAsFound` / `vFromAsFound` at the end of this file.) -/
 def hBase (vls : List Seg) (h : Seg) : List LV :=
-  h.vs ++ (((vls.filter (crosses h)).filter fun v => v.p == h.b && endVert h v).map fun _ => (⟨h.b, .node⟩ : LV))
+  h.vs ++ (((vls.filter (crosses h)).filter fun v => (v.p == h.b || v.p == h.f) && endVert h v).map
+    fun v => (⟨v.p, .node⟩ : LV))
 
 /-- all vertices the horizontal line `h` ends up with (its `breakPoints`) -/
 def hVerts (lo hi : Rat) (vls : List Seg) (h : Seg) : List LV :=
   ((vls.filter (crosses h)).map (·.p)).foldl ensure (ensureFin hi (ensureFin lo (hBase vls h) h.b) h.f)
 
-/-- what one horizontal line (with its final vertices `hv`) hands to the vertical line `v` -/
+/-- what one horizontal line (with its final vertices `hv`) hands to the vertical line `v`: all the vertices
+    it has at the meeting point -/
 def vFrom (v : Seg) (h : Seg) (hv : List LV) : List LV :=
-  if crosses h v then
-    ((hv.filter (·.t == v.p)).map fun q => (⟨h.p, q.k⟩ : LV)) ++
-      (if v.p == h.f && v.p != h.b && endVert h v then [⟨h.p, .node⟩] else [])
-  else []
+  if crosses h v then (hv.filter (·.t == v.p)).map fun q => (⟨h.p, q.k⟩ : LV) else []
 
 /-- the breakpoints the vertical line `v` receives from the horizontal lines, and its own end points -/
 def vVerts (lo hi : Rat) (hls : List (Seg × List LV)) (v : Seg) : List LV :=
@@ -452,7 +455,8 @@ def Scene.flagParts (s : Scene) : List (GV × Nat) :=
   let vl := L.vs.map (·.1)
   (L.hs.flatMap fun (h, vs) =>
     let cs := cornersOn sidesH h ++
-      (if (vl.filter (crosses h)).any (fun v => v.p == h.b && endVert h v) then [h.b] else [])
+      (if (vl.filter (crosses h)).any (fun v => v.p == h.b && endVert h v) then [h.b] else []) ++
+      (if (vl.filter (crosses h)).any (fun v => v.p == h.f && endVert h v) then [h.f] else [])
     let bps := sortLV vs
     let fl := lineFlags XL_EDGE XL_CONN XH_EDGE XH_CONN (bps.map fun q => (q.k.isConn, !q.k.isConn && cs.contains q.t))
     List.zipWith (fun q f => ((⟨q.t, h.p, q.k⟩ : GV), f)) bps fl) ++
@@ -485,5 +489,41 @@ def sweepLines (rects : List Rect) : List Rat → List Nat → List (Rat × List
   | p :: ps, line =>
     let seen := line ++ opensAt rects p
     (p, seen) :: sweepLines rects ps (seen.filter fun i => !(closesAt rects p).contains i)
+
+/-! ### the crossing rule as found (before the fix in /repo)
+
+In `intersectSegments`, branch `vertLine.pos == horiLine.finish`, `insertBreakpointsFinish` ran AFTER
+`addEdgeHorizontal` had collected the horizontal line's break points: the vertical line's own end vertex
+reached the vertical line only.  On the level of vertex OBJECTS this split the graph at such a point (two
+dummy vertices, one per line; which one a `std::set<PosVertInf>` kept depended on heap addresses); on the
+level of points it loses an edge when the horizontal line has only a connector end point vertex there
+(witness: `Props.C05OrthVis`, `demoSceneFinish`). -/
+
+def hBaseAsFound (vls : List Seg) (h : Seg) : List LV :=
+  h.vs ++ (((vls.filter (crosses h)).filter fun v => v.p == h.b && endVert h v).map fun _ => (⟨h.b, .node⟩ : LV))
+
+def hVertsAsFound (lo hi : Rat) (vls : List Seg) (h : Seg) : List LV :=
+  ((vls.filter (crosses h)).map (·.p)).foldl ensure (ensureFin hi (ensureFin lo (hBaseAsFound vls h) h.b) h.f)
+
+def vFromAsFound (v : Seg) (h : Seg) (hv : List LV) : List LV :=
+  if crosses h v then
+    ((hv.filter (·.t == v.p)).map fun q => (⟨h.p, q.k⟩ : LV)) ++
+      (if v.p == h.f && v.p != h.b && endVert h v then [⟨h.p, .node⟩] else [])
+  else []
+
+def vVertsAsFound (lo hi : Rat) (hls : List (Seg × List LV)) (v : Seg) : List LV :=
+  ensureFin hi (ensureFin lo (hls.flatMap fun p => vFromAsFound v p.1 p.2) v.b) v.f
+
+def Scene.linesAsFound (s : Scene) : Lines :=
+  let lo := s.lo
+  let hi := s.hi
+  let conns := s.fixDirs
+  let hl := mergeAll (rawH lo hi s.rects conns)
+  let vl := mergeAll (rawV lo hi (s.rects.map Rect.tr) (conns.map Conn.tr))
+  let hs := hl.map fun h => (h, hVertsAsFound lo hi vl h)
+  { hs := hs, vs := vl.map fun v => (v, vVertsAsFound lo hi hs v), conns := conns }
+
+/-- the graph the builder produced before the fix (point level) -/
+def Scene.graphAsFound (s : Scene) : List (GV × GV) := s.linesAsFound.edges
 
 end AdaptaVerif.Model.OrthVis
